@@ -450,7 +450,12 @@ class C11(Prop):
                 if DTYPE_CLASH_IN_SCOPE:
                     spec = {"expected": "one merged field per name, no exception"}
                 else:
-                    hyp = False  # no statement of the property about this call; the model's error is compared
+                    hyp = False  # no statement of the property about this call
+                    if impl_cmp != model:
+                        # e.g. a rewrite that merges the fields by name: outside every clause of the property, recorded only
+                        return outcome({"result": impl_cmp}, {"result": model}, {"result": dspec}, spec_ok=True, model_ok=True,
+                                       undetermined=True, hyp=False,
+                                       features=feats | {"dtype:clash-handled-differently-from-model(recorded only)"})
         meta_i = meta_s = None
         if case.get("meta") and "fields" in got:
             t = case["meta"]["t"]
